@@ -82,6 +82,11 @@ def enum_case(cid, lp, bases, poison5, poison):
 
 
 def main():
+    if len(sys.argv) > 2 and sys.argv[1] == "--replay":
+        # python3 checks/C12.py --replay <file>: run one recorded script against the library built from /repo's working tree
+        rc, out, err = run_harness("h_fac", "".join(l for l in open(sys.argv[2]) if not l.startswith("#")), asan=True)
+        print(out + err[-2000:])
+        sys.exit(0)
     ck = Check("C12", "proof")
     build_repo()
     pr = ck.proofs()
@@ -136,8 +141,8 @@ def main():
         pcases.append((cid, enum_case(cid, lp, bases, poison5, True)))
         meta[cid] = (lp, bases, poison5, False)
     t1 = time.time()
-    M, outs, crashes = run_cases("h_fac", cases, per_case_timeout=600)
-    _, pouts, pcr = run_cases("h_fac", pcases, per_case_timeout=600)
+    M, outs, crashes = run_cases("h_fac", cases, per_case_timeout=60)
+    _, pouts, pcr = run_cases("h_fac", pcases, per_case_timeout=60)
     crashes = crashes + pcr
     print("# phase 1 harness %.1fs" % (time.time() - t1), file=sys.stderr)
     scripts = dict(cases)
@@ -267,7 +272,7 @@ def main():
             rcases.append((cid, "\n".join(s) + "\n"))
             rmeta[cid] = (lp, entry, warm, (pp, dp, sc))
     t1 = time.time()
-    M2, routs, rcr = run_cases("h_fac", rcases, per_case_timeout=120)
+    M2, routs, rcr = run_cases("h_fac", rcases, per_case_timeout=15)
     print("# phase 2 harness %.1fs" % (time.time() - t1), file=sys.stderr)
     rscripts = dict(rcases)
     ck.cov["crashes_seen"] = [dict(case=c, rc=rc) for c, rc, e in crashes + rcr]
